@@ -7,7 +7,7 @@ PROPS = ["C12"]
 GEN_GROUPS = ["Api"]
 
 VERBS = {"GetMapping": "GET", "PostMapping": "POST", "PutMapping": "PUT", "DeleteMapping": "DELETE"}
-PATHS = ["/users", "/{id}", "/a/b", "", "/x-y_z", "/bücher/{größe}", "/" + "segment/" * 12 + "end"]
+PATHS = ["/users", "/{id}", "/a/b", "", "/x-y_z", "/bücher/{größe}", "/" + "segment/" * 12 + "end", "login", "api/orders"]      # (also written without a leading slash)
 
 
 def q(s):
@@ -167,6 +167,9 @@ def oracle(case, out, raw):
     if out is None or "panic" in out:
         return [("panic", "API scan panicked at %s: %s" % ((raw or {}).get("site"), (raw or {}).get("panic")))]
     got, exp = out["apis"], case["expected"]
+    if "csvRows" in out and len(out["csvRows"]) != len(exp):
+        # through the command: coca_reporter/api.csv has one row per handler too
+        return [("api-csv-rows", "api.csv of `coca api -f` has %d rows for %d handlers: %s" % (len(out["csvRows"]), len(exp), out["csvRows"][:4]))]
     if got == exp:
         return []
     ds = []
@@ -196,6 +199,12 @@ def oracle(case, out, raw):
             seen.add(d[0])
             res.append(d)
     return res
+
+
+def view(o):
+    if isinstance(o, dict) and "csvRows" in o:
+        return {k: v for k, v in o.items() if k != "csvRows"}      # the command's csv report is judged by the oracle (row count)
+    return o
 
 
 def nontrivial(case, mo):
